@@ -1120,8 +1120,10 @@ func (p *asyncProducer) returnErrors(batch []*ProducerMessage, err error) {
 func (p *asyncProducer) returnSuccesses(batch []*ProducerMessage) {
 	for _, msg := range batch {
 		verifHook("ap.outcome", msg, nil)
+		// the retry state is reset whether or not the message is handed back: the
+		// application may submit the same object again (to this or another producer)
+		msg.clear()
 		if p.conf.Producer.Return.Successes {
-			msg.clear()
 			p.successes <- msg
 		}
 		p.inFlight.Done()
